@@ -662,6 +662,7 @@ class Result(_WithKeys, ResultInternal[Row[Unpack[_Ts]]]):
 
         """
         self._unique_filter_state = (set(), strategy)
+        self._reset_memoizations()
         return self
 
     def columns(self, *col_expressions: _KeyIndexType) -> Self:
@@ -1334,6 +1335,7 @@ class ScalarResult(FilterResult[_R]):
 
         """
         self._unique_filter_state = (set(), strategy)
+        self._reset_memoizations()
         return self
 
     def partitions(self, size: Optional[int] = None) -> Iterator[Sequence[_R]]:
@@ -1616,6 +1618,7 @@ class MappingResult(_WithKeys, FilterResult[RowMapping]):
 
         """
         self._unique_filter_state = (set(), strategy)
+        self._reset_memoizations()
         return self
 
     def columns(self, *col_expressions: _KeyIndexType) -> Self:
